@@ -172,6 +172,15 @@ def body(root, cfg, phase, arm):
             from dvc_data.index import ObjectStorage
 
             index = imd5(ibuild(ws, LFS), state=state)
+            if cfg.get("sorted_keys"):
+                # the same entries inserted in sorted key order (a root-level file comes first), not in walk order
+                from dvc_data.index import DataIndex
+
+                _ix = DataIndex()
+                for _k in sorted(k for k, _e in index.iteritems()):
+                    _ix[_k] = index[_k]
+                _ix.storage_map = index.storage_map
+                index = _ix
             odb2 = make_odb("local", os.path.join(root, "odb2"), state=state)
             index.storage_map.add_cache(ObjectStorage((), odb))
             index.storage_map.add_cache(ObjectStorage((second_fs_dir(t).split("/")[0],), odb2))
@@ -392,6 +401,9 @@ def configs(tier):
                         if caps and tier != "thorough" and t != "Ta":
                             continue
                         yield {"scenario": sc, "tree": t, "initial": initial, "first": first, "caps": caps}
+                        if sc == "index-save-2caches":
+                            yield {"scenario": sc, "tree": t, "initial": initial, "first": first, "caps": caps,
+                                   "sorted_keys": True}
 
 
 def run(ctx):
